@@ -277,6 +277,8 @@ class FnAnalysis(Analysis):
             v = self.args.get(p.arg)
             if v is None and p.arg in defaults and isinstance(defaults[p.arg], ast.Constant):
                 v = self.v_Constant(defaults[p.arg], st)
+            elif v is None and p.arg in defaults and isinstance(defaults[p.arg], (ast.Name, ast.Attribute)):
+                v = self.folded_const(defaults[p.arg])       # a named module / class constant as the default
             if v is None:
                 v = Val(types=self.annotation_types(p.annotation))
                 src = self.R.cfg.sources.get(self.fn.qual, {})
@@ -339,6 +341,12 @@ class FnAnalysis(Analysis):
         return {"file": self.m.rel, "function": self.fn.qual, "construct": norm(node)[:160], "line": getattr(node, "lineno", None)}
 
     def raise_name(self, s, st):
+        # `raise error(...)` where `error` is a class-valued local / parameter (exception class passed to a helper)
+        e = s.exc.func if isinstance(s.exc, ast.Call) else s.exc
+        if isinstance(e, ast.Name) and e.id in st.env:
+            v = st.env[e.id]
+            if v.kind == "cls" and len(v.classes) == 1:
+                return next(iter(v.classes))
         return None
 
     def raises(self, node, st: St):
@@ -593,6 +601,21 @@ class FnAnalysis(Analysis):
                         if iv is not None and iv.ilb is not None:
                             v0 = st.env[bn]
                             st.env[bn] = v0.but(lb=max(v0.lb, iv.ilb + (1 if opn == "Gt" else 0)))
+            # remaining-length facts: len(buf) - off >= k  (integer cursor into a buffer)
+            for (ll, rr, fl) in ((l, r, False), (r, l, True)):
+                cr = self.cint(rr)
+                if cr is None and isinstance(rr, ast.Name) and rr.id in st.env and isinstance(st.env[rr.id].cv, int) and not isinstance(st.env[rr.id].cv, bool):
+                    cr = st.env[rr.id].cv            # a local holding a constant
+                if isinstance(ll, ast.BinOp) and isinstance(ll.op, ast.Sub) and isinstance(ll.right, ast.Name) and self.len_of(ll.left, st) is not None \
+                        and cr is not None:
+                    opn = type(op).__name__
+                    if fl:
+                        opn = {"Lt": "Gt", "Gt": "Lt", "LtE": "GtE", "GtE": "LtE"}.get(opn, opn)
+                    if not truth:
+                        opn = {"Lt": "GtE", "GtE": "Lt", "Gt": "LtE", "LtE": "Gt", "Eq": "NotEq", "NotEq": "Eq"}.get(opn)
+                    k = {"GtE": cr, "Gt": cr + 1, "Eq": cr}.get(opn)
+                    if k is not None:
+                        st.lenge = st.lenge | {(self.len_of(ll.left, st), ll.right.id, k)}
             # length facts
             name, c, flip = self.len_of(l, st), self.cint(r), False
             if name is None:
@@ -1370,6 +1393,13 @@ class FnAnalysis(Analysis):
             return a0 if a0.kind not in ("coro:conn",) else Val(False, "list", 2, 2)
         # ---- builtins and library functions
         if meth is None or ext:
+            if name == "dict" and not e.args and e.keywords and all(k.arg for k in e.keywords):
+                # dict(a=x, b=y) is the literal {"a": x, "b": y}: constant keys, the values are its elements
+                elem = None
+                for k in e.keywords:
+                    vv = self.val(k.value, st)
+                    elem = vv if elem is None else join_val(elem, vv)
+                return Val(False, "map", elem=elem)
             if name == "len":
                 return Val(a0.taint, "int", ilb=a0.lb, len_of=self.key_of(e.args[0]) if e.args else None)
             if name in ("bytes", "bytearray") and argv and a0.kind == "list" and a0.elem is not None:
@@ -1423,7 +1453,14 @@ class FnAnalysis(Analysis):
                 off = self.cint(e.args[2]) if len(e.args) > 2 else (self.cint(dict((k.arg, k.value) for k in e.keywords).get("offset")) if any(k.arg == "offset" for k in e.keywords) else 0)
                 if buf.taint:
                     size = _struct.calcsize(fmt) if fmt else None
-                    if size is not None and off is not None and off >= 0 and buf.lb >= off + size:
+                    offn = e.args[2] if len(e.args) > 2 else dict((k.arg, k.value) for k in e.keywords).get("offset")
+                    rem = None
+                    if off is None and isinstance(offn, ast.Name) and offn.id in st.env and (st.env[offn.id].ilb or -1) >= 0:
+                        bk = self.key_of(e.args[1]) if len(e.args) > 1 else None
+                        rem = max((p[2] for p in st.lenge if len(p) == 3 and p[0] == bk and p[1] == offn.id), default=None)
+                    if size is not None and rem is not None and rem >= size:
+                        self.raiser(e, "struct.error", "", proved=f"len(buffer) - {offn.id} >= {rem} >= {size} and {offn.id} >= 0")
+                    elif size is not None and off is not None and off >= 0 and buf.lb >= off + size:
                         self.raiser(e, "struct.error", "", proved=f"buffer length >= {buf.lb} >= offset {off} + {size}")
                     else:
                         self.raiser(e, "struct.error", f"struct.unpack_from({fmt!r}, offset {off}) on peer data whose length is only known to be >= {buf.lb}")
